@@ -72,6 +72,8 @@ def valid(v: dict) -> bool:
         return False
     if v["constr"] and v["ty"] == "object":
         return False  # no constraint keyword is routed for dict-typed members
+    if v["opts"]["an"] and not v["opts"]["fc"]:
+        return False  # generate() refuses use_annotated without field_constraints
     return True
 
 
@@ -380,19 +382,72 @@ def member_line(code: str) -> str:
     return ""
 
 
+_captured: dict = {}
+
+
+def _install_capture() -> None:
+    """Observe the parser's field record from outside (DESIGN §2.2): remember the Parser instance
+    that `generate()` creates; `parser.results` holds the models as they are when rendered."""
+    import datamodel_code_generator.parser.base as pb
+
+    if getattr(pb.Parser.parse, "_c05_wrapped", False):
+        return
+    orig = pb.Parser.parse
+
+    def parse(self, *a, **k):
+        _captured["parser"] = self
+        return orig(self, *a, **k)
+
+    parse._c05_wrapped = True  # type: ignore[attr-defined]
+    pb.Parser.parse = parse  # type: ignore[method-assign]
+
+
+CONSTRAINT_ATTRS = ("max_length", "le", "max_items", "maxLength", "maximum", "maxItems")
+
+
+def ir_of_captured() -> str | None:
+    """the parser's field record for member `n` of model `M`, in the driver's `irStr` form"""
+    p = _captured.get("parser")
+    if p is None:
+        return None
+    for m in p.results:
+        if getattr(m, "class_name", None) == "M" and m.fields:
+            f = m.fields[0]
+            c = f.constraints
+            if c is None:
+                cons = "none"
+            elif isinstance(c, dict):
+                cons = "keyword" if any(c.get(k) is not None for k in CONSTRAINT_ATTRS) else "empty"
+            else:
+                cons = "keyword" if any(getattr(c, k, None) is not None for k in CONSTRAINT_ATTRS) else "empty"
+            n = {None: "N", True: "T", False: "F"}[f.nullable]
+            b = lambda x: "1" if x else "0"  # noqa: E731
+            return (
+                f"req={b(f.required)} nullable={n} hd={b(f.has_default)} thn={b(f.type_has_null)} "
+                f"sdn={b(f.strip_default_none)} dio={b(f.data_type.is_optional)} cons={cons}"
+            )
+    return None
+
+
 def run_vector(v: dict) -> dict:
     """One abstract vector through the real generator (runs in a worker process)."""
+    _install_capture()
+    _captured.clear()
     doc, ift = build_doc(v)
     real = realise(v)
     r = e2e.run_generate(doc, input_file_type=ift, model=v["kind"], opts=opts_of(v))
     if not r.ok:
         return {"error": f"{r.error_type}: {r.error_msg[:200]}", "hang": r.hang}
     try:
+        ir = ir_of_captured()
+    except Exception as e:  # noqa: BLE001
+        ir = f"error:{type(e).__name__}"
+    try:
         sh = observe(r.code, real["default"], v["dflt"] != "none")
     except SyntaxError as e:
         return {"error": f"unparsable: {e}", "code": r.code}
     sem = semantics(r.code, v, real, sh)
-    return {"shape": shape_str(sh), "sem": sem, "line": member_line(r.code), "member": real["member"]}
+    return {"shape": shape_str(sh), "sh": sh, "sem": sem, "ir": ir, "line": member_line(r.code), "member": real["member"]}
 
 
 def _worker(chunk: list[dict]) -> list[dict]:
@@ -413,6 +468,11 @@ def run_vectors(vs: list[dict], workers: int = 14) -> list[dict]:
     return [x for c in res for x in c]
 
 
+def mk_vec(kind, ns, inreq, d, ty, con, bits, variant=0) -> dict:
+    return {"kind": kind, "nullsrc": ns, "inreq": bool(inreq), "dflt": d, "ty": ty, "constr": bool(con),
+            "opts": dict(zip(OPT_TAG, [bool(b) for b in bits])), "variant": variant}
+
+
 def all_vectors(kinds=None) -> list[dict]:
     out = []
     for kind in kinds or KINDS:
@@ -427,3 +487,325 @@ def all_vectors(kinds=None) -> list[dict]:
                                 if valid(v):
                                     out.append(v)
     return out
+
+
+# ---------------------------------------------------------------- model side (Lean driver)
+NULLMODE = {"js-no": "no", "oa-no": "no", "js-typelist": "typelist", "oa-typelist": "typelist", "oa-flag": "flag"}
+MODEL_OPTS = ["sn", "ud", "fo", "sd", "an", "fc"]  # use_default_kwarg is spelling only (not modelled)
+
+
+def driver_request(v: dict) -> str:
+    bits = "".join("1" if v["opts"][t] else "0" for t in MODEL_OPTS)
+    return (
+        f"field.render {KIND_TAG[v['kind']]} {NULLMODE[v['nullsrc']]} {int(v['inreq'])} {v['dflt']} {v['ty']} "
+        f"{int(v['constr'])} {bits}"
+    )
+
+
+def parse_reply(rep: str) -> dict | None:
+    if not rep.startswith("ok "):
+        return None
+    ir, shape, sem = rep[3:].split(" | ")
+    kv = dict(x.split("=", 1) for x in sem.split())
+    return {
+        "ir": ir,
+        "shape": shape,
+        "sem": {
+            "loads": kv["loads"] == "1",
+            "must": kv["must"] == "1",
+            "null": kv["null"] == "1",
+            "omitted": kv["omitted"],
+            "shared": kv["shared"] == "1",
+        },
+    }
+
+
+def sem_canon(s: dict) -> dict:
+    return {
+        "loads": s["loads"] == "ok" if isinstance(s["loads"], str) else bool(s["loads"]),
+        "must": bool(s["must"]),
+        "null": bool(s["null"]),
+        "omitted": s["omitted"],
+        "shared": bool(s["shared"]),
+    }
+
+
+def normalise_kw(shape: str) -> tuple[str, bool]:
+    """`Field(default=x, …)` and `Field(x, …)` are the same shape for the model; returns the
+    normalised shape and whether the keyword spelling was used."""
+    if " asg=Field:kw" in shape:
+        return shape.replace(" asg=Field:kw", " asg=Field:"), True
+    return shape, False
+
+
+# ---------------------------------------------------------------- the property's oracle: clauses and classification
+def clause_failures(v: dict, sem: dict, shape: str, ir_required: bool | None) -> list[dict]:
+    """Clauses of C05 that fail for vector `v` given the member's semantics `sem` (canonical form).
+    Returns classification dicts {clause, mechanism}; the mechanism is read off the vector, the
+    rendered shape and the parser's `required`, never off the Lean model."""
+    o = v["opts"]
+    R, D = v["inreq"], v["dflt"] != "none"
+    N = NULLMODE[v["nullsrc"]] != "no"
+    omittable = (not R) or o["fo"] or (o["ud"] and D)
+    none_default = v["dflt"] in ("none", "null")
+    asg = shape.split(" asg=")[-1] if " asg=" in shape else ""
+    has_rendered_default = asg.startswith(("lit:", "Field:none", "Field:dflt", "Field:kw", "field:factory"))
+    out = []
+    if not sem["loads"]:
+        out.append({"clause": "class_creation", "mechanism": sem.get("loads_error", "exec_error")})
+    if not omittable:
+        if not sem["must"] and (N or not D):
+            clause = "required_nullable_stays_required" if N else "required_nodefault_must_supply"
+            if ir_required is False:
+                mech = "parser_dropped_required"
+            elif has_rendered_default:
+                mech = "default_appended_to_required"
+            elif v["kind"] == "pydantic.BaseModel" and "opt=1" in shape and asg == "none":
+                mech = "v1_bare_optional"
+            else:
+                mech = "other"
+            out.append({"clause": clause, "mechanism": mech})
+    else:
+        if sem["must"]:
+            mech = "strip_default_none" if (o["sd"] and none_default and asg == "none" and "nr=0" in shape) else "other"
+            out.append({"clause": "optional_omittable", "mechanism": mech})
+        elif sem["loads"]:
+            if none_default:
+                if sem["omitted"] not in ("none", "absent"):
+                    out.append({"clause": "optional_reads_none", "mechanism": "other"})
+            elif sem["omitted"] != "dflt":
+                mech = "typeddict_has_no_defaults" if v["kind"] == "typing.TypedDict" and sem["omitted"] == "absent" else "other"
+                out.append({"clause": "default_value", "mechanism": mech})
+            if sem["shared"]:
+                out.append({"clause": "mutable_default_not_shared", "mechanism": "shared_object"})
+    if N and not sem["null"]:
+        if v["nullsrc"] == "oa-flag" and not o["sn"]:
+            mech = "openapi_nullable_without_strict"
+        elif v["nullsrc"].endswith("typelist") and o["sn"] and v["ty"] == "array":
+            mech = "strict_nullable_overrides_type_list"
+        elif v["kind"] == "typing.TypedDict" and "nr=1" in shape:
+            mech = "typeddict_notrequired_no_fallback"
+        else:
+            mech = "other"
+        out.append({"clause": "nullable_accepts_null", "mechanism": mech})
+    return out
+
+
+def evaluate(ck: Check, camps: dict, v: dict, r: dict, model: dict | None, record: bool = True) -> list[dict]:
+    """Correspondence (ir / shape / sem) and the property oracle for one vector. Returns the
+    classified oracle failures."""
+    key = vec_key(v) + f" var{v.get('variant', 0)}"
+    inp = {"vector": v, "key": key, "member": r.get("member"), "line": r.get("line")}
+    ci, cr, cs, co = camps["ir"], camps["render"], camps["sem"], camps["oracle"]
+    co.evaluations += 1
+    co.hit(f"kind:{KIND_TAG[v['kind']]}")
+    co.hit(f"nullsrc:{v['nullsrc']}")
+    co.hit(f"dflt:{v['dflt']}")
+    co.hit(f"{'required' if v['inreq'] else 'not-required'}")
+    for t in OPT_TAG:
+        if v["opts"][t]:
+            co.hit(f"opt:{t}")
+    if "error" in r:
+        if r.get("hang"):
+            co.hit("hang(C01)")
+        co.hit("generator_error")
+        if record:
+            ck.fail({"clause": "generation", "kind": KIND_TAG[v["kind"]], "mechanism": "generator_error", "model_predicts": False}, inp, r["error"])
+        return []
+    real_sem = sem_canon(r["sem"])
+    if isinstance(r["sem"]["loads"], str) and r["sem"]["loads"] != "ok":
+        real_sem["loads_error"] = r["sem"]["loads"].removeprefix("error:")
+    shape, kw_used = normalise_kw(r["shape"])
+    # --- correspondence
+    if model is None:
+        ck.infra_errors.append(f"model driver rejected vector {key}")
+        return []
+    ci.evaluations += 1
+    cr.evaluations += 1
+    cs.evaluations += 1
+    ci.distinct.add(key)
+    cr.distinct.add(key)
+    cs.distinct.add(key)
+    if r["ir"] != model["ir"]:
+        ck.disagree(ci, inp, model["ir"], r["ir"])
+    elif len(ci.samples) < 2:
+        ci.samples.append({"key": key, "ir": r["ir"]})
+    ci.hit("req=" + (r["ir"] or "?").split(" ")[0][-1:])
+    if shape != model["shape"]:
+        ck.disagree(cr, inp, model["shape"], r["shape"] + "   # " + r["line"])
+    elif len(cr.samples) < 3:
+        cr.samples.append({"key": key, "line": r["line"], "shape": shape})
+    cr.hit("asg=" + shape.split(" asg=")[-1])
+    want_kw = v["opts"]["kw"] and shape.split(" asg=")[-1] in ("Field:none", "Field:dflt")
+    if kw_used != want_kw:
+        ck.disagree(cr, inp, f"default= keyword spelling expected: {want_kw}", r["shape"] + "   # " + r["line"])
+    ms, rs = dict(model["sem"]), {k: real_sem[k] for k in ("loads", "must", "null", "omitted", "shared")}
+    if not rs["loads"] or not ms["loads"]:
+        ms, rs = {"loads": ms["loads"]}, {"loads": rs["loads"]}
+    if ms != rs:
+        ck.disagree(cs, inp, ms, {**rs, "line": r["line"]})
+    elif len(cs.samples) < 2:
+        cs.samples.append({"key": key, "line": r["line"], "sem": rs})
+    cs.hit("must" if real_sem["must"] else "omittable")
+    # --- the property's own oracle, on the real output
+    ir_required = None if not r["ir"] or r["ir"].startswith("error") else r["ir"].startswith("req=1")
+    fails = clause_failures(v, real_sem, shape, ir_required)
+    predicted = {f["clause"] for f in clause_failures(v, {**model["sem"], "loads_error": "msgspec-nonempty-mutable-default"}, model["shape"], model["ir"].startswith("req=1"))}
+    co.distinct.add(key)
+    out = []
+    for f in fails:
+        cl = {"clause": f["clause"], "kind": KIND_TAG[v["kind"]], "mechanism": f["mechanism"], "model_predicts": f["clause"] in predicted}
+        out.append(cl)
+        co.hit("fails:" + f["clause"])
+        if record:
+            ck.fail(cl, inp, f"{r['line']!r} — semantics of the emitted member: {real_sem}", f"clause {f['clause']} of C05")
+    if not fails:
+        co.hit("all-clauses-hold")
+    if not r["sem"].get("present", True):
+        co.hit("present-value-rejected(C03)")
+    if len(co.samples) < 3 and not fails:
+        co.samples.append({"key": key, "line": r["line"], "sem": real_sem})
+    return out
+
+
+def run_batch(ck: Check, camps: dict, vs: list[dict]) -> None:
+    t0 = time.time()
+    results = run_vectors(vs)
+    replies = ck.driver.run([driver_request(v) for v in vs])
+    for v, r, rep in zip(vs, results, replies):
+        evaluate(ck, camps, v, r, parse_reply(rep))
+    dt = time.time() - t0
+    for c in camps.values():
+        c.wall_s += dt / len(camps)
+
+
+def make_campaigns(ck: Check) -> dict:
+    return {
+        "ir": ck.campaign("stage 1: Model.Field.fromSchema vs the parser's field record (required, nullable, has_default, type_has_null, strip_default_none, data_type.is_optional, constraints) captured from the real Parser"),
+        "render": ck.campaign("stage 2: Model.Field.render (field classes + generated template table) vs the member line emitted by the real generate()"),
+        "sem": ck.campaign("stage 3: Model.Field.semOf (authored library semantics) vs the exec'd class (pydantic v1-shim/v2 validation, dataclasses.fields, TypedDict hints; msgspec statically)"),
+        "oracle": ck.campaign("property oracle on the exec'd class: omitted / null / present, default equality, mutable default identity"),
+    }
+
+
+# minimised vectors of past model mistakes and of every defect family (run first)
+def corpus() -> list[dict]:
+    Z = [0] * 7
+    def o(**k):
+        return [1 if k.get(t) else 0 for t in OPT_TAG]
+    return [
+        mk_vec("pydantic_v2.BaseModel", "js-typelist", 1, "none", "scalar", 0, Z),          # D7
+        mk_vec("msgspec.Struct", "js-typelist", 1, "none", "scalar", 0, Z),
+        mk_vec("pydantic.BaseModel", "js-typelist", 1, "none", "scalar", 0, Z),
+        mk_vec("pydantic_v2.BaseModel", "js-no", 0, "none", "scalar", 0, o(sd=1)),
+        mk_vec("pydantic_v2.BaseModel", "oa-flag", 1, "none", "scalar", 0, Z),
+        mk_vec("pydantic_v2.BaseModel", "js-typelist", 1, "none", "array", 0, o(sn=1)),
+        mk_vec("typing.TypedDict", "js-typelist", 0, "none", "array", 0, Z),
+        mk_vec("typing.TypedDict", "js-no", 0, "str", "scalar", 0, Z),
+        mk_vec("msgspec.Struct", "js-no", 0, "listN", "array", 0, Z),
+        mk_vec("pydantic_v2.BaseModel", "oa-flag", 1, "none", "scalar", 0, o(sn=1, an=1, fc=1)),   # Annotated[..., Field(...)] = None
+        mk_vec("pydantic.BaseModel", "js-no", 0, "str", "scalar", 0, Z, variant=1),                 # default "None" (a string)
+        mk_vec("dataclasses.dataclass", "js-no", 0, "dictN", "object", 0, Z, variant=1),
+        mk_vec("dataclasses.dataclass", "oa-typelist", 1, "listE", "array", 1, o(ud=1, fc=1)),
+        mk_vec("typing.TypedDict", "oa-flag", 0, "null", "object", 0, o(sn=1)),
+        mk_vec("msgspec.Struct", "js-no", 1, "truthy", "scalar", 1, o(an=1, fc=1, fo=1)),
+    ]
+
+
+def stratified(ck: Check, n: int) -> list[dict]:
+    """Quick tier: every (kind, nullsrc, required, default class) cell is visited at least once;
+    member type, constraint flag, option vector and the concrete realisation are drawn per visit."""
+    rng = ck.rng.fork("vectors")
+    cells = [(k, ns, r, d) for k in KINDS for ns in NULLSRC for r in (0, 1) for d in DFLT]
+    out = []
+    i = 0
+    order = rng.shuffle(cells)
+    while len(out) < n:
+        k, ns, r, d = order[i % len(order)]
+        i += 1
+        ty = rng.choice(ty_of(d))
+        con = rng.chance(1, 3) and ty != "object"
+        bits = [rng.chance(1, 3) for _ in OPT_TAG]
+        v = mk_vec(k, ns, r, d, ty, con, bits, variant=rng.below(6))
+        if v["opts"]["an"] and not v["opts"]["fc"]:
+            v["opts"]["fc"] = True
+        if valid(v):
+            out.append(v)
+    return out
+
+
+def known_findings(ck: Check) -> None:
+    """Re-run the stored witness of every open finding on the real code."""
+    for f in ck.findings:
+        w = f["witness"]["vector"]
+        probe = Check(ck.prop, ck.tier)
+        probe.findings = []
+        camps = make_campaigns(probe)
+        r = run_vector(w)
+        rep = ck.driver.run([driver_request(w)])[0]
+        fails = evaluate(probe, camps, w, r, parse_reply(rep), record=False)
+        from ..runner import match_finding
+
+        if any(match_finding([f], cl) is not None for cl in fails):
+            ck.known(f["id"], f["what"])
+
+
+def search_exhaustive(ck: Check) -> None:
+    """Targeted search when a theorem or a correspondence broke and the sampled vectors showed no
+    oracle failure: the space is finite, so sweep it (all kinds, all option vectors)."""
+    camps = {k: ck.campaign("search: " + k) for k in ("ir", "render", "sem", "oracle")}
+    vs = all_vectors()
+    for i in range(0, len(vs), 12000):
+        run_batch(ck, camps, vs[i : i + 12000])
+        if ck.failures:
+            return
+
+
+def run(ck: Check) -> None:
+    quick = ck.tier == "quick"
+    ck.translate("FieldTemplates", field_templates.generate())
+    ck.prove()
+    ck.assumptions += [
+        "abstract space: one member of scalar / array-of-scalar / dict-of-scalar type; $ref-typed members, const, default_factory extras, aliases and the union-operator spelling are outside it",
+        "the default VALUE is abstracted to its class (none given / null / falsy / truthy / string / empty or non-empty list / empty or non-empty dict); equality of the materialised value is checked by the end-to-end oracle on concrete realisations, not by a theorem",
+        "Sem (what a rendered member means in pydantic 1, pydantic 2, dataclasses, TypedDict, msgspec) is authored; validated in this run against the exec'd classes except for msgspec, which is not installed (read statically from the AST)",
+        "TypedDict requiredness is read from the resolved annotation (NotRequired[...]), not from __required_keys__, because the emitted module uses `from __future__ import annotations` (PEP 655 limitation)",
+        "use_default_kwarg only changes the spelling Field(x) → Field(default=x); checked syntactically, not part of the Lean model",
+    ]
+    camps = make_campaigns(ck)
+    run_batch(ck, camps, corpus())
+    if quick:
+        run_batch(ck, camps, stratified(ck, 1500))
+    else:
+        vs = all_vectors()
+        rng = ck.rng.fork("variants")
+        for v in vs:
+            v["variant"] = rng.below(6)
+        for i in range(0, len(vs), 20000):
+            run_batch(ck, camps, vs[i : i + 20000])
+    ck.notes["space"] = {"valid_vectors_total": len(all_vectors()) if not quick else 105600, "tier_covers": "exhaustive" if not quick else "stratified sample"}
+    ck.search_hooks.append(search_exhaustive)
+    known_findings(ck)
+
+
+def replay(ck: Check, path: str) -> int:
+    data = json.loads(open(path).read())
+    inp = data.get("input") or (data.get("first_disagreement") or {}).get("input") or {}
+    v = inp.get("vector")
+    if not v:
+        print("replay: no vector in the replay file")
+        return 2
+    ck.findings = []
+    camps = make_campaigns(ck)
+    r = run_vector(v)
+    rep = ck.driver.run([driver_request(v)])[0]
+    print("vector:", vec_key(v), "member schema:", json.dumps(r.get("member")))
+    print("emitted:", r.get("line"), "| semantics:", r.get("sem"))
+    evaluate(ck, camps, v, r, parse_reply(rep))
+    for f in ck.failures:
+        print("REPLAY-FAILS:", json.dumps(f.classification), f.observed[:300])
+    for d in ck.disagreements:
+        print("REPLAY-DISAGREES:", d.campaign[:40], "model:", d.model, "impl:", d.impl)
+    if not ck.failures:
+        print("replay: the oracle does not fail on this input")
+    return 1 if ck.failures else 0
